@@ -91,7 +91,15 @@ namespace occa {
         if ((kType & keywordType::type) &&
             !vartype.isValid()) {
           vartype.type = &(keyword.to<typeKeyword>().type_);
-          vartype.typeToken = (identifierToken*) tokenContext[0]->clone();
+          // The token is an identifierToken the first time it is seen, but a typeToken
+          // once tokenContext_t::parseExpression has replaced it: build the identifier then
+          token_t *typeNameToken = tokenContext[0];
+          if (typeNameToken->type() & tokenType::identifier) {
+            vartype.typeToken = (identifierToken*) typeNameToken->clone();
+          } else {
+            vartype.typeToken = new identifierToken(typeNameToken->origin,
+                                                    keyword.name());
+          }
           ++tokenContext;
           continue;
         }
